@@ -1,10 +1,787 @@
-//! Family `lex` — stub (replaced by the unit that owns this family).
+//! Family `lex` (C07 lexer part, C10 lexer part): the real `Lexer`, driven exactly as `Parser::new` /
+//! `Parser::bump` drive it.
+//!
+//! Protocol (one request per line, one answer per line):
+//! ```text
+//! lex <hex src>                 -> toks=<T> diags=<D> labels=<L> end=<ok|panic|abort|timeout>
+//! relay <hex orig> <hex text>   -> the same answer for <text>; the oracle additionally requires the
+//!                                  kinds and payloads of <text> to equal those of <orig> (C10)
+//! ```
+//! `<T>`: tokens joined by `,`, each `<kind>@<lo>:<hi>`; `ident:<hex>`, `num:<hex>`, `str:<hex>:<0|1>`
+//! carry their payload (`-` = empty; last field of `str` is 1 iff the token is `ArenaCow::Owned`,
+//! i.e. the literal contained an escape). The list always ends with the `eof` the parser makes up
+//! when the iterator returns `None` (`0:0` with no token, else `h:h`, `h` = end of the last token).
+//! `<D>` = `pipeline::diags_str`, `<L>` = `pipeline::labels_str` of `lexer.errors`.
+//! A request whose payload is not valid UTF-8 is answered `bad-utf8` (a `&str` cannot hold it).
+//!
+//! `run` answers every case inside a child process (`nvh lex worker`) that is fed line by line over
+//! pipes: a stack overflow or an abort kills only the child; the in-flight case is answered
+//! `toks=? diags=? labels=? end=abort`, a hang `end=timeout`, and a new child is started.
+//! Implementation-level oracle (needs no model): `end=ok`; every token / diagnostic / label span is
+//! ordered, within the text and on `is_char_boundary`; token spans do not overlap and do not go
+//! backwards; string payloads are valid UTF-8. Failures: `ORACLE-FAIL <line> <what>` on stderr.
 
-pub fn main(_args: &[String]) -> i32 {
-    eprintln!("family lex: not built yet");
-    2
+use std::io::{BufRead, BufReader, Write};
+use std::process::{Child, ChildStdin, Command, Stdio};
+use std::sync::mpsc::{self, Receiver};
+use std::time::Duration;
+
+use naijascript::arena::{Arena, ArenaCow};
+use naijascript::diagnostics::Diagnostics;
+use naijascript::syntax::scanner::Lexer;
+use naijascript::syntax::token::{SpannedToken, Token};
+
+use crate::pipeline;
+use crate::util::{self, Out, Rng};
+
+pub fn main(args: &[String]) -> i32 {
+    match args.first().map(String::as_str) {
+        Some("gen") => generate(&args[1..]),
+        Some("run") => run(&args[1..]),
+        Some("worker") => worker(),
+        Some("toks") => {
+            // debugging aid: nvh lex toks <hex>
+            let src = args.get(1).and_then(|h| util::unhex(h)).and_then(|b| String::from_utf8(b).ok());
+            match src {
+                Some(s) => {
+                    println!("{}", toks_str(&s));
+                    0
+                }
+                None => 2,
+            }
+        }
+        _ => {
+            eprintln!(
+                "usage: nvh lex gen --seed S --n N --kind grammar|trunc|relayout|deep [--repo DIR] | nvh lex run [--inproc] < requests"
+            );
+            2
+        }
+    }
 }
 
-/// Constants/tables of the compiled crate this family wants in `nvh dump-tables`
-/// (JSON key, JSON value text).
-pub fn dump_tables(_out: &mut Vec<(String, String)>) {}
+/// The byte classes of `std` the lexer relies on (`u8::is_ascii_whitespace`, `is_ascii_digit`,
+/// `is_ascii_alphabetic`, `is_ascii_alphanumeric`), evaluated over all 256 bytes. The lexer's own
+/// tables are private `match` arms, extracted by regex (`extract/gen_lex.py`).
+pub fn dump_tables(out: &mut Vec<(String, String)>) {
+    let set = |f: fn(&u8) -> bool| format!("{:?}", (0u16..256).map(|b| b as u8).filter(f).collect::<Vec<u8>>());
+    out.push(("lex_is_ascii_whitespace".into(), set(u8::is_ascii_whitespace)));
+    out.push(("lex_is_ascii_digit".into(), set(u8::is_ascii_digit)));
+    out.push(("lex_is_ascii_alphabetic".into(), set(u8::is_ascii_alphabetic)));
+    out.push(("lex_is_ascii_alphanumeric".into(), set(u8::is_ascii_alphanumeric)));
+    out.push(("lex_is_ascii".into(), set(u8::is_ascii)));
+    out.push(("lex_len_utf8_by_lead".into(), {
+        // length of the character for every possible lead byte (0 = not a lead byte)
+        let mut v = vec![0usize; 256];
+        for c in (0u32..=0x10ffff).filter_map(char::from_u32) {
+            let mut buf = [0u8; 4];
+            let s = c.encode_utf8(&mut buf);
+            v[s.as_bytes()[0] as usize] = c.len_utf8();
+        }
+        format!("{v:?}")
+    }));
+}
+
+// ------------------------------------------------------------------------------------------------
+// the real lexer, as the parser drives it
+// ------------------------------------------------------------------------------------------------
+
+pub fn kind_name(t: &Token<'_>) -> &'static str {
+    match t {
+        Token::String(_) => "str",
+        Token::Identifier(_) => "ident",
+        Token::Number(_) => "num",
+        Token::Make => "make",
+        Token::Get => "get",
+        Token::Add => "add",
+        Token::Minus => "minus",
+        Token::Times => "times",
+        Token::Divide => "divide",
+        Token::Mod => "mod",
+        Token::And => "and",
+        Token::Or => "or",
+        Token::Not => "not",
+        Token::Jasi => "jasi",
+        Token::Start => "start",
+        Token::End => "end",
+        Token::Comot => "comot",
+        Token::Next => "next",
+        Token::Na => "na",
+        Token::Pass => "pass",
+        Token::SmallPass => "smallpass",
+        Token::IfToSay => "iftosay",
+        Token::IfNotSo => "ifnotso",
+        Token::Do => "do",
+        Token::Return => "return",
+        Token::True => "true",
+        Token::False => "false",
+        Token::Null => "null",
+        Token::LParen => "lparen",
+        Token::RParen => "rparen",
+        Token::LBracket => "lbracket",
+        Token::RBracket => "rbracket",
+        Token::Comma => "comma",
+        Token::Dot => "dot",
+        Token::EOF => "eof",
+    }
+}
+
+/// `kind[:payload[:esc]]` — the span-free part of a token's text.
+pub fn tok_payload(t: &Token<'_>) -> String {
+    match t {
+        Token::String(c) => {
+            let owned = matches!(c, ArenaCow::Owned(_));
+            format!("str:{}:{}", util::hex(c.as_bytes()), u8::from(owned))
+        }
+        Token::Identifier(s) => format!("ident:{}", util::hex(s.as_bytes())),
+        Token::Number(s) => format!("num:{}", util::hex(s.as_bytes())),
+        other => kind_name(other).to_string(),
+    }
+}
+
+pub fn tok_str(st: &SpannedToken<'_>) -> String {
+    format!("{}@{}:{}", tok_payload(&st.token), st.span.start, st.span.end)
+}
+
+/// Pull tokens out of `lexer` the way `Parser::new` and `Parser::bump` do: the first with
+/// `unwrap_or_default()`, the following with `unwrap_or(EOF at cur.span.end)`, until EOF is current.
+pub fn drive<'a>(lexer: &mut Lexer<'a, 'a>) -> Vec<SpannedToken<'a>> {
+    // NB: tokens are moved, never cloned: `ArenaCow::clone` turns `Owned` into `Borrowed`.
+    let mut out: Vec<SpannedToken<'a>> = Vec::new();
+    out.push(lexer.next().unwrap_or_default());
+    loop {
+        let cur = out.last().unwrap();
+        if cur.token == Token::EOF {
+            break;
+        }
+        let end = cur.span.end;
+        let next = lexer.next().unwrap_or(SpannedToken { token: Token::EOF, span: (end..end).into() });
+        out.push(next);
+    }
+    out
+}
+
+pub fn toks_text(toks: &[SpannedToken<'_>]) -> String {
+    if toks.is_empty() {
+        return "-".to_string();
+    }
+    toks.iter().map(tok_str).collect::<Vec<_>>().join(",")
+}
+
+/// The token list text of `src` (real `Lexer`, driven as the parser drives it).
+pub fn toks_str(src: &str) -> String {
+    let arena = Arena::new(pipeline::ARENA_CAP).unwrap();
+    let mut lexer = Lexer::new(src, &arena);
+    let toks = drive(&mut lexer);
+    toks_text(&toks)
+}
+
+fn span_ok(src: &str, lo: usize, hi: usize) -> Option<&'static str> {
+    if lo > hi {
+        return Some("start > end");
+    }
+    if hi > src.len() {
+        return Some("end beyond the text");
+    }
+    if !src.is_char_boundary(lo) || !src.is_char_boundary(hi) {
+        return Some("not on a character boundary");
+    }
+    None
+}
+
+fn oracle(src: &str, toks: &[SpannedToken<'_>], errs: &Diagnostics<'_>) -> Option<String> {
+    let mut prev_end = 0usize;
+    for (i, t) in toks.iter().enumerate() {
+        if let Some(w) = span_ok(src, t.span.start, t.span.end) {
+            return Some(format!("token {i} ({}) span {}..{}: {w}", kind_name(&t.token), t.span.start, t.span.end));
+        }
+        if t.span.start < prev_end {
+            return Some(format!(
+                "token {i} ({}) starts at {} before the end {} of its predecessor",
+                kind_name(&t.token),
+                t.span.start,
+                prev_end
+            ));
+        }
+        prev_end = t.span.end;
+        if let Token::String(c) = &t.token {
+            if std::str::from_utf8(c.as_bytes()).is_err() {
+                return Some(format!("string token {i} content is not valid UTF-8: {}", util::hex(c.as_bytes())));
+            }
+        }
+    }
+    for (i, d) in errs.diagnostics.iter().enumerate() {
+        if let Some(w) = span_ok(src, d.span.start, d.span.end) {
+            return Some(format!("diagnostic {i} span {}..{}: {w}", d.span.start, d.span.end));
+        }
+        for l in d.labels.iter() {
+            if let Some(w) = span_ok(src, l.span.start, l.span.end) {
+                return Some(format!("diagnostic {i} label span {}..{}: {w}", l.span.start, l.span.end));
+            }
+        }
+    }
+    None
+}
+
+struct Lexed {
+    answer: String,
+    payloads: Vec<String>,
+    oracle: Option<String>,
+}
+
+fn lex_real(src: &str) -> Lexed {
+    let arena = Arena::new(pipeline::ARENA_CAP).unwrap();
+    let mut lexer = Lexer::new(src, &arena);
+    let toks = drive(&mut lexer);
+    let answer = format!(
+        "toks={} diags={} labels={} end=ok",
+        toks_text(&toks),
+        pipeline::diags_str(&lexer.errors),
+        pipeline::labels_str(&lexer.errors)
+    );
+    let payloads = toks.iter().map(|t| tok_payload(&t.token)).collect();
+    let oracle = oracle(src, &toks, &lexer.errors);
+    Lexed { answer, payloads, oracle }
+}
+
+/// Answer one request in this process. Returns (answer, oracle failure).
+fn answer_line(line: &str) -> (String, Option<String>) {
+    let w: Vec<&str> = line.split_whitespace().collect();
+    let text = |h: &str| util::unhex(h).and_then(|b| String::from_utf8(b).ok());
+    match w.as_slice() {
+        ["lex", h] => {
+            let Some(src) = text(h) else { return ("bad-utf8".into(), None) };
+            match util::catch(|| lex_real(&src)) {
+                Ok(l) => (l.answer, l.oracle),
+                Err(msg) => (
+                    "toks=? diags=? labels=? end=panic".into(),
+                    Some(format!("lexer panicked: {}", msg.replace('\n', " "))),
+                ),
+            }
+        }
+        ["relay", ho, ht] => {
+            let (Some(orig), Some(src)) = (text(ho), text(ht)) else { return ("bad-utf8".into(), None) };
+            match util::catch(|| (lex_real(&orig), lex_real(&src))) {
+                Ok((o, l)) => {
+                    let mut fail = l.oracle;
+                    if fail.is_none() && o.payloads != l.payloads {
+                        let i = o.payloads.iter().zip(l.payloads.iter()).position(|(a, b)| a != b);
+                        fail = Some(format!(
+                            "re-layout changes the token sequence (first difference at token {:?}: {} vs {}; {} vs {} tokens)",
+                            i,
+                            i.map_or("-", |i| o.payloads[i].as_str()),
+                            i.map_or("-", |i| l.payloads[i].as_str()),
+                            o.payloads.len(),
+                            l.payloads.len()
+                        ));
+                    }
+                    if fail.is_none() && (o.answer.contains("diags=-") != l.answer.contains("diags=-")) {
+                        fail = Some("re-layout changes whether the lexer reports diagnostics".into());
+                    }
+                    (l.answer, fail)
+                }
+                Err(msg) => (
+                    "toks=? diags=? labels=? end=panic".into(),
+                    Some(format!("lexer panicked: {}", msg.replace('\n', " "))),
+                ),
+            }
+        }
+        _ => ("bad-op".into(), None),
+    }
+}
+
+// ------------------------------------------------------------------------------------------------
+// run: parent + worker children
+// ------------------------------------------------------------------------------------------------
+
+/// Child: one request per line on stdin, one line `<answer>\t<oracle message or empty>` on stdout.
+fn worker() -> i32 {
+    util::silence_panics();
+    let stdin = std::io::stdin();
+    let stdout = std::io::stdout();
+    for line in stdin.lock().lines() {
+        let Ok(line) = line else { break };
+        let (ans, orc) = answer_line(&line);
+        let mut o = stdout.lock();
+        let _ = writeln!(o, "{}\t{}", ans, orc.unwrap_or_default().replace(['\t', '\n'], " "));
+        let _ = o.flush();
+    }
+    0
+}
+
+struct Kid {
+    child: Child,
+    stdin: ChildStdin,
+    rx: Receiver<Option<String>>,
+}
+
+fn spawn_kid() -> Kid {
+    let exe = std::env::current_exe().expect("current_exe");
+    let mut child = Command::new(exe)
+        .args(["lex", "worker"])
+        .stdin(Stdio::piped())
+        .stdout(Stdio::piped())
+        .stderr(Stdio::null())
+        .spawn()
+        .expect("spawn worker");
+    let stdin = child.stdin.take().unwrap();
+    let stdout = child.stdout.take().unwrap();
+    let (tx, rx) = mpsc::channel();
+    std::thread::spawn(move || {
+        let mut r = BufReader::new(stdout);
+        loop {
+            let mut s = String::new();
+            match r.read_line(&mut s) {
+                Ok(0) | Err(_) => {
+                    let _ = tx.send(None);
+                    break;
+                }
+                Ok(_) => {
+                    if tx.send(Some(s.trim_end_matches('\n').to_string())).is_err() {
+                        break;
+                    }
+                }
+            }
+        }
+    });
+    Kid { child, stdin, rx }
+}
+
+const CASE_TIMEOUT: Duration = Duration::from_secs(20);
+
+fn run(args: &[String]) -> i32 {
+    util::silence_panics();
+    let inproc = util::flag(args, "--inproc");
+    let lines = util::stdin_lines();
+    let mut out = Out::new();
+    let mut fails = 0u64;
+    let mut deaths = 0u64;
+    let mut kid: Option<Kid> = None;
+    for (lineno, line) in lines.iter().enumerate() {
+        let (ans, orc): (String, Option<String>) = if inproc {
+            answer_line(line)
+        } else {
+            let k = kid.get_or_insert_with(spawn_kid);
+            let sent = k.stdin.write_all(line.as_bytes()).and_then(|()| k.stdin.write_all(b"\n")).and_then(|()| k.stdin.flush());
+            let got = if sent.is_ok() { k.rx.recv_timeout(CASE_TIMEOUT) } else { Ok(None) };
+            match got {
+                Ok(Some(resp)) => {
+                    let (a, o) = resp.split_once('\t').unwrap_or((resp.as_str(), ""));
+                    (a.to_string(), if o.is_empty() { None } else { Some(o.to_string()) })
+                }
+                Ok(None) => {
+                    // the child died while answering this case
+                    deaths += 1;
+                    let mut k = kid.take().unwrap();
+                    let status = k.child.wait().ok();
+                    eprintln!("ABORT {} worker died: {:?}", lineno + 1, status);
+                    (
+                        "toks=? diags=? labels=? end=abort".to_string(),
+                        Some(format!("lexer aborted the process ({})", status.map_or("?".to_string(), |s| s.to_string()))),
+                    )
+                }
+                Err(_) => {
+                    deaths += 1;
+                    let mut k = kid.take().unwrap();
+                    let _ = k.child.kill();
+                    let _ = k.child.wait();
+                    ("toks=? diags=? labels=? end=timeout".to_string(), Some("lexer did not return within 20 s".to_string()))
+                }
+            }
+        };
+        out.line(&ans);
+        if let Some(msg) = orc {
+            fails += 1;
+            eprintln!("ORACLE-FAIL {} {}", lineno + 1, msg);
+        }
+    }
+    if let Some(mut k) = kid.take() {
+        drop(k.stdin);
+        let _ = k.child.wait();
+    }
+    eprintln!("ORACLE-SUMMARY fails={fails} worker_deaths={deaths} lines={}", lines.len());
+    0
+}
+
+// ------------------------------------------------------------------------------------------------
+// generators
+// ------------------------------------------------------------------------------------------------
+
+const KEYWORDS: &[&str] = &[
+    "make", "get", "add", "minus", "times", "divide", "mod", "and", "or", "not", "jasi", "start", "end", "comot",
+    "next", "na", "pass", "true", "false", "null", "do", "return",
+];
+const MULTI: &[&str] = &[
+    "if to say", "if not so", "small pass", "if  to\tsay", "if\nto\nsay", "if\r\nnot\r\nso", "small\tpass", "if to",
+    "if not", "if", "small", "if to not so", "if to say2", "small pass_x", "small pass9", "if to sayx", "if tosay",
+    "ifto say", "if to\x0csay", "if # c\n to say", "small # c\n pass", "if not\nso1", "if to to say", "if to not",
+];
+const IDENTS: &[&str] = &[
+    "x", "foo", "_a1", "to", "say", "so", "i", "n", "shout", "len", "makeup", "getx", "_", "__", "a_b_c", "Z9",
+    "passe", "iffy", "smallest", "If", "TO", "nulls", "t", "notso",
+];
+const NUMBERS: &[&str] =
+    &["0", "1", "42", "3.14", "0.5", "007", "1.", "1..2", "1.a", "12abc", "1_000", "1.5.2", "1.5e3", "9.", "10.0", "1.x1.y"];
+const STRINGS: &[&str] = &[
+    "\"abc\"", "'abc'", "\"\"", "''", "\"a\\nb\"", "\"\\\"\"", "'\\''", "\"\\\\\"", "\"\\t\"", "\"a\\xb\"", "\"a\\éb\"",
+    "\"a\\€b\"", "\"\\😆\"", "\"abc", "'abc", "\"abc\\", "\"ab\\n", "\"ab\ncd\"", "\"ab\rcd\"", "\"a\\nb\ncd\"", "\"héllo €\"",
+    "\"{x}\"", "\"it's\"", "'say \"hi\"'", "\"\\'\"", "'\\\"'", "\"a\\\nb\"", "\"a\\ b\"", "\"😆\"", "\"\\n\\t\\\\\"", "\"a\\",
+    "\"\\€", "'\\é'", "\"x\\ty\\qz\"", "\"tab\there\"", "\"#not comment\"",
+];
+const PUNCT: &[&str] = &["(", ")", "[", "]", ",", "."];
+const MULTIBYTE: &[&str] = &["é", "€", "😆", "\u{a0}", "\u{2028}", "\u{85}", "\u{3000}", "ß", "\u{7ff}", "\u{800}", "\u{ffff}", "\u{10ffff}"];
+const ODD_ASCII: &[&str] = &[
+    "@", "$", "!", ";", "{", "}", "`", "~", "\\", "^", "&", "*", "-", "+", "=", "<", ">", "/", ":", "?", "|", "%", "\0",
+    "\x7f", "\x0b", "\x1f", "\"", "'",
+];
+const COMMENTS: &[&str] = &["#", "# foo", "#é€😆", "# a\n", "# a\r", "# a\r\n", "#\n", "##\n#\n", "# \"str\" 1. \\\n"];
+const SPACES: &[&str] = &[" ", "\t", "\n", "\r", "\r\n", "\x0c", "  ", " \t\n", "\n\n"];
+
+fn req(out: &mut Out, text: &str) {
+    out.line(&format!("lex {}", util::hex(text.as_bytes())));
+}
+
+fn generate(args: &[String]) -> i32 {
+    let seed = util::opt_u64(args, "--seed", 1);
+    let n = util::opt_u64(args, "--n", 1000);
+    let kind = util::opt(args, "--kind").unwrap_or("grammar");
+    let repo = util::opt(args, "--repo").map(str::to_string).or_else(|| std::env::var("NV_REPO").ok()).unwrap_or_else(|| "/repo".to_string());
+    let mut out = Out::new();
+    match kind {
+        "grammar" => gen_grammar(seed, n, &mut out),
+        "trunc" => gen_trunc(seed, n, &repo, &mut out),
+        "relayout" => gen_relayout(seed, n, &repo, &mut out),
+        "deep" => gen_deep(n, &mut out),
+        _ => {
+            eprintln!("unknown --kind {kind}");
+            return 2;
+        }
+    }
+    0
+}
+
+fn classes() -> Vec<&'static [&'static str]> {
+    vec![KEYWORDS, MULTI, IDENTS, NUMBERS, STRINGS, PUNCT, MULTIBYTE, ODD_ASCII, COMMENTS, SPACES]
+}
+
+/// (i) texts from the grammar of lexer classes. First a deterministic part (every representative
+/// alone, and every multi-byte character / quote / backslash / `#` / `.` / digit / line end glued
+/// before, after and between every token representative), then `n` random concatenations.
+fn gen_grammar(seed: u64, n: u64, out: &mut Out) {
+    let mut rng = Rng::new(seed ^ 0x1E5);
+    let all = classes();
+    req(out, "");
+    for cl in &all {
+        for p in cl.iter() {
+            req(out, p);
+        }
+    }
+    let tokens: Vec<&str> =
+        [KEYWORDS, &MULTI[..3], &IDENTS[..6], &NUMBERS[..8], &STRINGS[..18], PUNCT, &COMMENTS[..4]].concat();
+    let glue: Vec<&str> = [MULTIBYTE, &["\"", "'", "\\", "#", ".", "7", "_", "a", "\n", "\r", "\r\n", "\t", "\x0c", "@"][..]].concat();
+    for t in &tokens {
+        for g in &glue {
+            req(out, &format!("{t}{g}"));
+            req(out, &format!("{g}{t}"));
+            req(out, &format!("{t}{g}{t}"));
+        }
+    }
+    for _ in 0..n {
+        let cap = if rng.chance(1, 8) { 40 } else { 10 };
+        let len = 1 + rng.below(cap);
+        let policy = rng.below(4);
+        let mut s = String::new();
+        for i in 0..len {
+            if i > 0 {
+                match policy {
+                    0 => {}
+                    1 => s.push(' '),
+                    2 => {
+                        if rng.chance(1, 2) {
+                            s.push_str(rng.pick(SPACES));
+                        }
+                    }
+                    _ => {
+                        if rng.chance(1, 3) {
+                            s.push_str(rng.pick(SPACES));
+                        } else if rng.chance(1, 6) {
+                            s.push_str(rng.pick(COMMENTS));
+                        }
+                    }
+                }
+            }
+            // weights: tokens common, odd stuff regularly
+            let cl = match rng.below(20) {
+                0..=2 => KEYWORDS,
+                3..=4 => MULTI,
+                5..=7 => IDENTS,
+                8..=10 => NUMBERS,
+                11..=13 => STRINGS,
+                14..=15 => PUNCT,
+                16 => MULTIBYTE,
+                17 => ODD_ASCII,
+                18 => COMMENTS,
+                _ => SPACES,
+            };
+            s.push_str(rng.pick(cl));
+        }
+        req(out, &s);
+    }
+}
+
+fn program_files(repo: &str) -> Vec<(String, String)> {
+    let mut v = Vec::new();
+    for dir in ["examples", "tests/stress"] {
+        let p = std::path::Path::new(repo).join(dir);
+        let Ok(rd) = std::fs::read_dir(&p) else { continue };
+        let mut names: Vec<_> = rd.filter_map(Result::ok).map(|e| e.path()).filter(|p| p.extension().is_some_and(|e| e == "ns")).collect();
+        names.sort();
+        for f in names {
+            if let Ok(s) = std::fs::read_to_string(&f) {
+                v.push((f.display().to_string(), s));
+            }
+        }
+    }
+    v
+}
+
+/// (ii) truncations of the shipped programs on character boundaries: prefixes `text[..cut]` and
+/// suffixes `text[cut..]`. `n = 0`: every cut of every file; otherwise `n` cuts drawn at random
+/// (plus the whole files).
+fn gen_trunc(seed: u64, n: u64, repo: &str, out: &mut Out) {
+    let mut rng = Rng::new(seed ^ 0x7C);
+    let files = program_files(repo);
+    if files.is_empty() {
+        eprintln!("no programs under {repo}/examples or {repo}/tests/stress");
+        return;
+    }
+    for (_, s) in &files {
+        req(out, s);
+    }
+    if n == 0 {
+        for (_, s) in &files {
+            for cut in 0..=s.len() {
+                if s.is_char_boundary(cut) {
+                    req(out, &s[..cut]);
+                }
+            }
+        }
+        return;
+    }
+    for _ in 0..n {
+        let (_, s) = rng.pick(&files);
+        let mut cut = rng.below(s.len() as u64 + 1) as usize;
+        while !s.is_char_boundary(cut) {
+            cut -= 1;
+        }
+        if rng.chance(3, 4) {
+            // keep prefixes short enough that the stream stays cheap: a window ending at the cut
+            let mut from = cut.saturating_sub(rng.below(400) as usize);
+            while !s.is_char_boundary(from) {
+                from -= 1;
+            }
+            if rng.chance(1, 2) {
+                from = 0;
+            }
+            req(out, &s[from..cut]);
+        } else {
+            let mut to = (cut + rng.below(400) as usize).min(s.len());
+            while !s.is_char_boundary(to) {
+                to -= 1;
+            }
+            req(out, &s[cut..to]);
+        }
+    }
+}
+
+/// The lexemes (source slices) of the real tokens of `src`, or None if the lexer reports anything.
+fn lexemes(src: &str) -> Option<Vec<(String, String)>> {
+    let arena = Arena::new(pipeline::ARENA_CAP).unwrap();
+    let mut lexer = Lexer::new(src, &arena);
+    let toks = drive(&mut lexer);
+    if !lexer.errors.diagnostics.is_empty() {
+        return None;
+    }
+    Some(
+        toks.iter()
+            .filter(|t| t.token != Token::EOF)
+            .map(|t| (kind_name(&t.token).to_string(), src[t.span.start..t.span.end].to_string()))
+            .collect(),
+    )
+}
+
+fn is_word_byte(b: u8) -> bool {
+    b.is_ascii_alphanumeric() || b == b'_'
+}
+
+/// Would `a` directly followed by `b` lex differently from `a`, separator, `b`?
+fn needs_sep(a: &(String, String), b: &(String, String)) -> bool {
+    let (ka, ta) = (a.0.as_str(), a.1.as_str());
+    let first = b.1.as_bytes()[0];
+    let wordlike = !matches!(ka, "str" | "num" | "lparen" | "rparen" | "lbracket" | "rbracket" | "comma" | "dot");
+    if wordlike {
+        return is_word_byte(first);
+    }
+    if ka == "num" {
+        return is_word_byte(first) || (first == b'.' && !ta.contains('.'));
+    }
+    false
+}
+
+fn random_ws(rng: &mut Rng) -> String {
+    let mut s = String::new();
+    for _ in 0..1 + rng.below(3) {
+        s.push_str(rng.pick(&[" ", "\t", "\n", "\r", "\r\n", "\x0c", "  "]));
+    }
+    s
+}
+
+fn random_sep(rng: &mut Rng, allow_empty: bool) -> String {
+    match rng.below(6) {
+        0 if allow_empty => String::new(),
+        0 | 1 => " ".to_string(),
+        2 | 3 => random_ws(rng),
+        4 => format!("{}#{}{}", if rng.chance(1, 2) { " " } else { "" }, rng.pick(&["", " c", " é€", " \"x\" 1. if to say"]), rng.pick(&["\n", "\r", "\r\n"])),
+        _ => format!("# one{}# two{}{}", rng.pick(&["\n", "\r"]), rng.pick(&["\n", "\r\n"]), random_ws(rng)),
+    }
+}
+
+/// inner whitespace of a multi-word keyword re-drawn (only whitespace is allowed there)
+fn relayout_multi(rng: &mut Rng, kind: &str, text: &str, style: u64) -> String {
+    if !matches!(kind, "iftosay" | "ifnotso" | "smallpass") {
+        return text.to_string();
+    }
+    let words: Vec<&str> = text.split(|c: char| c.is_ascii_whitespace()).filter(|w| !w.is_empty()).collect();
+    let mut s = String::new();
+    for (i, w) in words.iter().enumerate() {
+        if i > 0 {
+            match style {
+                0 => s.push(' '),
+                1 => s.push('\n'),
+                4 => s.push_str("\r\n"),
+                5 => s.push('\r'),
+                _ => s.push_str(&random_ws(rng)),
+            }
+        }
+        s.push_str(w);
+    }
+    s
+}
+
+fn synth_tokens(rng: &mut Rng) -> Vec<(String, String)> {
+    let len = 1 + rng.below(14);
+    let mut v = Vec::new();
+    for _ in 0..len {
+        let (k, t): (&str, String) = match rng.below(12) {
+            0..=2 => {
+                let w = *rng.pick(KEYWORDS);
+                (if w == "true" || w == "false" || w == "null" || w == "return" { w } else { w }, w.to_string())
+            }
+            3 => (*rng.pick(&["iftosay", "ifnotso", "smallpass"]), String::new()),
+            4..=5 => ("ident", rng.pick(&IDENTS[..16]).to_string()),
+            6..=7 => ("num", rng.pick(&["0", "1", "42", "3.14", "0.5", "007", "10.0"]).to_string()),
+            8..=9 => (
+                "str",
+                rng.pick(&[
+                    "\"abc\"", "'abc'", "\"\"", "''", "\"a\\nb\"", "\"\\\"\"", "'\\''", "\"\\\\\"", "\"héllo €\"", "\"{x}\"",
+                    "\"it's\"", "'say \"hi\"'", "\"😆\"", "\"# no\"", "\"tab\there\"", "\"\\t\\n\"",
+                ])
+                .to_string(),
+            ),
+            _ => {
+                let p = *rng.pick(PUNCT);
+                (
+                    match p {
+                        "(" => "lparen",
+                        ")" => "rparen",
+                        "[" => "lbracket",
+                        "]" => "rbracket",
+                        "," => "comma",
+                        _ => "dot",
+                    },
+                    p.to_string(),
+                )
+            }
+        };
+        let t = match k {
+            "iftosay" => "if to say".to_string(),
+            "ifnotso" => "if not so".to_string(),
+            "smallpass" => "small pass".to_string(),
+            _ => t,
+        };
+        v.push((k.to_string(), t));
+    }
+    v
+}
+
+/// (iii) re-layouts: a token sequence (from a shipped program, a window of one, or synthesised) is
+/// rendered canonically (one space) and in six layouts; every request carries the canonical text so
+/// that the oracle can compare kinds and payloads.
+fn gen_relayout(seed: u64, n: u64, repo: &str, out: &mut Out) {
+    let mut rng = Rng::new(seed ^ 0xC10);
+    let files: Vec<Vec<(String, String)>> = program_files(repo).iter().filter_map(|(_, s)| lexemes(s)).filter(|v| !v.is_empty()).collect();
+    let mut count = 0u64;
+    let emit_all = |rng: &mut Rng, toks: &[(String, String)], out: &mut Out| {
+        // drop sequences that are not stable under the canonical layout itself (e.g. idents `if to`)
+        let canon: String = toks.iter().map(|t| relayout_multi(rng, &t.0, &t.1, 0)).collect::<Vec<_>>().join(" ");
+        match lexemes(&canon) {
+            Some(l) if l.len() == toks.len() && l.iter().zip(toks).all(|(a, b)| a.0 == b.0) => {}
+            _ => return,
+        }
+        for style in 0..7u64 {
+            let mut s = String::new();
+            if style == 6 && rng.chance(1, 2) {
+                s.push_str(&random_sep(rng, true));
+            }
+            for (i, t) in toks.iter().enumerate() {
+                s.push_str(&relayout_multi(rng, &t.0, &t.1, style));
+                let last = i + 1 == toks.len();
+                let must = !last && needs_sep(t, &toks[i + 1]);
+                // `if` / `small` as identifiers look ahead over whitespace: keep them away from `to`, `not`, `pass`
+                let hazard = t.0 == "ident" && (t.1 == "if" || t.1 == "small");
+                let sep = match style {
+                    0 => " ".to_string(),
+                    1 => "\n".to_string(),
+                    2 => if must || hazard { " ".to_string() } else { String::new() },
+                    3 => format!(" # c{}\n", i),
+                    4 => "\r\n".to_string(),
+                    5 => "\r".to_string(),
+                    _ => {
+                        if last && rng.chance(1, 3) {
+                            "# trailing comment without line end".to_string()
+                        } else {
+                            random_sep(rng, !(must || hazard))
+                        }
+                    }
+                };
+                s.push_str(&sep);
+            }
+            out.line(&format!("relay {} {}", util::hex(canon.as_bytes()), util::hex(s.as_bytes())));
+        }
+    };
+    while count < n {
+        count += 1;
+        let toks: Vec<(String, String)> = if !files.is_empty() && rng.chance(1, 2) {
+            let f = rng.pick(&files);
+            let a = rng.below(f.len() as u64) as usize;
+            let l = 1 + rng.below(30) as usize;
+            f[a..(a + l).min(f.len())].to_vec()
+        } else {
+            synth_tokens(&mut rng)
+        };
+        emit_all(&mut rng, &toks, out);
+    }
+}
+
+/// Inputs that make a recursive lexer deep: `1.a` repeated (`--n` times), and friends.
+fn gen_deep(n: u64, out: &mut Out) {
+    let n = n as usize;
+    req(out, &"1.a".repeat(n));
+    req(out, &"1. ".repeat(n));
+    req(out, &"1..".repeat(n));
+    req(out, &"@".repeat(n));
+    req(out, &"é".repeat(n));
+    req(out, &"#\n".repeat(n));
+    // the model's string buffer is a list that is appended to: keep these two shorter
+    req(out, &format!("\"{}\"", "\\n".repeat(n / 20)));
+    req(out, &format!("\"{}\"", "\\€".repeat(n / 20)));
+}
